@@ -464,7 +464,7 @@ TRUSTED_BASE_COMMON = [
     "Coq 8.16.1 kernel (coqc; vm_compute used in witness/non-vacuity lemmas; native_compute not used)",
     "no axioms declared by the development; Print Assumptions output audited against a standard-library allow-list on every run",
     "tools/gen_constants.py (regex translator of source constants into coq/Gen/Constants.v)",
-    "tools/gen_logic.py + tools/rustmini.py (parser and translator of the pure decision functions - Fingerprint::same, reconcile_path, cas_decide, needs_transfer, glob_match, MessageType::from_u8, FrameHeader::validate, Delta::validate, safe_join - from the current Rust source into coq/Gen/<Group>Gen.v; Proofs/Tie<Group>.v proves generated = model for all inputs; the tables that name model vocabulary for Rust paths/fields/error texts, and the reading of usize index arithmetic as exact, are trusted)",
+    "tools/gen_logic.py + tools/rustmini.py (parser and translator of the pure decision functions - Fingerprint::same, reconcile_path, reconcile, cas_decide, needs_transfer, glob_match, is_excluded, build_plan, MessageType::from_u8, FrameHeader::validate, Delta::validate, safe_join - from the current Rust source into coq/Gen/<Group>Gen.v; Proofs/Tie<Group>.v proves generated = model for all inputs; the tables that name model vocabulary for Rust paths/fields/error texts, and the reading of usize index arithmetic as exact, are trusted)",
     "extraction: Require Extraction + ExtrOcamlBasic only (bool/option/unit/list/prod/sumbool/sumor mapped to OCaml types; N/Z/positive/nat extracted as inductives); OCaml 4.13.1 ocamlopt; ocaml/driver.ml parsing/printing glue",
     "correspondence harness (Rust crate /verif/harness: generators, canonicalisation, oracles); BLAKE3 crate as digest oracle",
 ]
